@@ -382,6 +382,64 @@ def map_raise(ctx: Ctx) -> None:
                     for s in m.fl.rdefs(nm.id, e.id):
                         if s.value is not None and m.twin and mentions_name(s.value, m.twin):
                             guarded = True
+        # exactness: with T = the twin looked up in the twin map, the failure may be set aside
+        # exactly when T exists and (T is not done, or T is done without exception).  Evaluate
+        # the path condition over the atoms {T, T.done(), T.exception()}.
+        if guarded:
+            twin_vars = set()
+            for t, pol in facts:
+                for nm in ast.walk(t):
+                    if isinstance(nm, ast.Name) and any(s.value is not None and mentions_name(s.value, m.twin) for s in m.fl.rdefs(nm.id, e.id)):
+                        twin_vars.add(nm.id)
+
+            def ev(x, env):
+                if isinstance(x, ast.BoolOp):
+                    vals = [ev(v, env) for v in x.values]
+                    if any(v is None for v in vals):
+                        return None
+                    return all(vals) if isinstance(x.op, ast.And) else any(vals)
+                if isinstance(x, ast.UnaryOp) and isinstance(x.op, ast.Not):
+                    v = ev(x.operand, env)
+                    return None if v is None else not v
+                if isinstance(x, ast.Name) and x.id in twin_vars:
+                    return env["T"]
+                if isinstance(x, ast.Compare) and len(x.ops) == 1 and isinstance(x.left, ast.Name) and x.left.id in twin_vars and isinstance(x.comparators[0], ast.Constant) and x.comparators[0].value is None:
+                    return env["T"] if isinstance(x.ops[0], ast.IsNot) else (not env["T"]) if isinstance(x.ops[0], ast.Is) else None
+                if isinstance(x, ast.Call) and isinstance(x.func, ast.Attribute) and isinstance(x.func.value, ast.Name) and x.func.value.id in twin_vars and not x.args:
+                    if x.func.attr == "done":
+                        return env["D"]
+                    if x.func.attr in ("exception", "cancelled"):
+                        return env["E"] if x.func.attr == "exception" else False
+                return None
+
+            rel = [(t, pol) for t, pol in facts if any(isinstance(nm, ast.Name) and nm.id in twin_vars for nm in ast.walk(t))]
+            exact = True
+            undecided = False
+            for T in (False, True):
+                for D in (False, True):
+                    for E in (False, True):
+                        if not T and (D or E):
+                            continue
+                        if E and not D:
+                            continue  # an unfinished future has no exception yet
+                        env = {"T": T, "D": D, "E": E}
+                        vals = [ev(t, env) for t, _ in rel]
+                        if any(v is None for v in vals):
+                            undecided = True
+                            continue
+                        taken = all(v == pol for v, (_, pol) in zip(vals, rel))
+                        want = T and not (D and E)
+                        if taken != want:
+                            exact = False
+            if not undecided:
+                ctx.ob(
+                    d,
+                    e.stmt,
+                    exact,
+                    "the failure is set aside exactly when a twin exists that is still running or finished without exception"
+                    + ("" if exact else " — the condition differs from that: either a failure is dropped although the twin failed too (the input never succeeds, yet the map finishes), or it is raised although the twin may still succeed"),
+                    sel="raise:suppress-exact",
+                )
         ctx.ob(
             d,
             e.stmt,
@@ -467,6 +525,10 @@ def map_once(ctx: Ctx) -> None:
                 for fact, fp in conjuncts(t, pol):
                     if isinstance(fact, ast.Compare) and isinstance(fact.ops[0], (ast.In, ast.NotIn)) and isinstance(fact.comparators[0], ast.Name) and fact.comparators[0].id == m.pending:
                         extra.append(("" if fp else "not ") + unparse(fact, 40))
+                    # twins exist only when the backup option is on: a mark under the
+                    # *negated* option (or a negated twin lookup) never runs when it matters
+                    if isinstance(fact, ast.Name) and not fp and (fact.id in d.params or fact.id in m.task_names or any(s_.value is not None and m.twin and mentions_name(s_.value, m.twin) for s_ in m.fl.rdefs(fact.id, b))):
+                        extra.append("not " + fact.id)
             ctx.ob(
                 d,
                 a_,
@@ -496,6 +558,48 @@ def map_once(ctx: Ctx) -> None:
             + ("" if ok else " — the superseded check comes after the exception test: when a task succeeds and its twin fails in the same wait round, the twin's failure is raised although the input has been delivered"),
             sel="once:raise",
         )
+
+
+@rule("MAP-SUBMIT-1", props=["C08", "C13"], floor=2)
+def map_submit(ctx: Ctx) -> None:
+    """every future that is created and registered in the input map inside the main loop is
+    also put into `pending` in the same block (a submitted task that is never awaited is an
+    input whose result is silently dropped)"""
+    d = _map_def(ctx)
+    m = MapShape(ctx, d)
+    n = 0
+    if m.input_map is None:
+        ctx.need(False, "input map of the parallel map not identified")
+    for st in d.own_nodes():
+        regs = []
+        # input_map[f] = i  /  input_map.update(new)
+        if isinstance(st, ast.Assign) and isinstance(st.targets[0], ast.Subscript) and isinstance(st.targets[0].value, ast.Name) and st.targets[0].value.id == m.input_map:
+            regs = [x.id for x in ast.walk(st.targets[0].slice) if isinstance(x, ast.Name)]
+        elif isinstance(st, ast.Expr) and isinstance(st.value, ast.Call) and isinstance(st.value.func, ast.Attribute) and st.value.func.attr == "update" and isinstance(st.value.func.value, ast.Name) and st.value.func.value.id == m.input_map:
+            regs = [x.id for a in st.value.args for x in ast.walk(a) if isinstance(x, ast.Name)]
+        if not regs or not m.cfg.has(st):
+            continue
+        nid = m.cfg.node_of(st)
+        if not m.cfg.in_loop(nid, m.main.id):
+            continue
+        n += 1
+        block = _block_of(d, st)
+        ok = False
+        for b in block:
+            for sub in walk_own(b, include_root=True):
+                if isinstance(sub, ast.Call) and isinstance(sub.func, ast.Attribute) and sub.func.attr in ("add", "update") and isinstance(sub.func.value, ast.Name) and sub.func.value.id == m.pending and any(mentions_name(a, *regs) for a in sub.args):
+                    ok = True
+                if isinstance(sub, (ast.Assign, ast.AugAssign)) and mentions_name(getattr(sub, "value", sub), *regs) and any(isinstance(t, ast.Name) and t.id == m.pending for t in (sub.targets if isinstance(sub, ast.Assign) else [sub.target])):
+                    ok = True
+        ctx.ob(
+            d,
+            st,
+            ok,
+            f"futures registered in `{m.input_map}` by `{unparse(st, 50)}` are added to `{m.pending}` in the same block"
+            + ("" if ok else " — they are not: the tasks run but nobody waits for them; the map finishes without their results"),
+            sel=f"submit:{ctx.anon(d, st, 40)}",
+        )
+    ctx.need(n >= 2, f"only {n} registrations of new futures inside the main loop found")
 
 
 @rule("MAP-BACKUP-1", props=["C08"], floor=2)
